@@ -46,7 +46,7 @@ pub fn run(ctx: &Ctx) -> i32 {
     );
     rep.assume("fp is s0; argument registers are not permuted (the property does not claim that)");
     let per_shard = ctx.tier.pick(25, 1500);
-    let acc = run_sharded(ctx.jobs, |shard| {
+    let acc = run_sharded(ctx, |shard| {
         let mut acc = Acc::new();
         for k in 0..per_shard {
             let mut rng = Rng::derive(ctx.seed, 14_000 + shard as u64, k as u64);
